@@ -250,9 +250,20 @@ func (fe *FuncEnc) callByContract(f *Frame, callee *ssa.Function, name string, c
 		t := fe.evalClause(cf, rq, pre, pre, nil, nil, pos)
 		fe.emit("pre", fe.srcLabel(pos, "call")+"."+rq.Label, path, t, name+" requires "+rq.Text, pos)
 	}
+	if f.parent == nil {
+		fe.cover("before "+fe.srcLabel(pos, "call"), path, pos)
+	}
 	fe.havocMods(st, fe.eng.modsetOf(callee), short)
 	res := fe.freshResults(callee, st, path, short)
+	defer func() {
+		if f.parent == nil {
+			fe.cover("after "+fe.srcLabel(pos, "call"), path, pos)
+		}
+	}()
 	for _, en := range con.Ensures {
+		if en.CaseType != nil {
+			continue // rules over the callee's private event log are not visible to callers
+		}
 		t := fe.evalClause(cf, en, st, pre, nil, res, pos)
 		fe.assume(path, t)
 	}
@@ -426,7 +437,14 @@ func (fe *FuncEnc) doInvoke(f *Frame, x *ssa.Call, st *State, path Term) {
 	impls := fe.implementations(iface, method)
 	if icon := fe.eng.ifaceCons[ifaceName+"."+method]; icon != nil {
 		// interface-level contract
-		res := fe.callIfaceContract(f, icon, ifaceName, method, impls, recv, args, sig, st, path, x.Pos())
+		var res []Term
+		if ifaceName == "interpreter.Callable" && method == "Call" {
+			res = fe.invokeLogged(f, recv, args, st, path, x.Pos(), func() []Term {
+				return fe.callIfaceContract(f, icon, ifaceName, method, impls, recv, args, sig, st, path, x.Pos())
+			})
+		} else {
+			res = fe.callIfaceContract(f, icon, ifaceName, method, impls, recv, args, sig, st, path, x.Pos())
+		}
 		fe.setResults(f, x, res)
 		return
 	}
@@ -650,6 +668,15 @@ func (e *Engine) modsetOf(fn *ssa.Function) map[string]bool {
 // loopModset: components written in the loop body (callees included).
 func (e *Engine) loopModset(fn *ssa.Function, li *loopInfo) map[string]bool {
 	d := map[string]bool{}
+	for b := range li.blocks {
+		for _, in := range b.Instrs {
+			if isLoggedCall(e, in) {
+				for _, lc := range logComps(e) {
+					d[lc.name] = true
+				}
+			}
+		}
+	}
 	for b := range li.blocks {
 		e.blockWrites(fn, b, d)
 		for _, in := range b.Instrs {
@@ -936,6 +963,9 @@ func (e *Engine) scanCtorOnly() {
 					if !ok {
 						continue
 					}
+					if _, isElem := root.(*ssa.IndexAddr); isElem {
+						continue // a field of a slice element: lives in the element component
+					}
 					comp := fieldComp(so, n, stt, first.Field)
 					e.compOwner[comp] = "A_H_" + sanitize(so.shortTypeName(n))
 					if _, isAlloc := root.(*ssa.Alloc); !isAlloc {
@@ -943,6 +973,9 @@ func (e *Engine) scanCtorOnly() {
 					}
 				default:
 					// whole-struct store through a pointer
+					if _, isElem := st.Addr.(*ssa.IndexAddr); isElem {
+						continue
+					}
 					pt, ok := st.Addr.Type().Underlying().(*types.Pointer)
 					if !ok {
 						continue
